@@ -2,6 +2,7 @@
 import concurrent.futures as cf
 import json
 import math
+import os
 import re
 from fractions import Fraction
 
@@ -11,6 +12,7 @@ from vlib import qstr
 NS = 'xmlns="http://www.w3.org/2000/svg" xmlns:xlink="http://www.w3.org/1999/xlink"'
 IMPORTS = ['Model.Base', 'Model.GeomPrims', 'Model.StylePrims', 'Model.Corr', 'Model.ObbPrims', 'Gen.LeafObb', 'Model.Obb',
            'Model.ObbChk']
+IMPORTS_EXT = IMPORTS + ['Model.ObbFilter', 'Model.ObbFilterChk']
 W, H = 240, 200
 KINDS = ['lg', 'rg', 'pattern', 'clip', 'mask', 'filter']
 
@@ -198,7 +200,8 @@ def gen_def(rng, kind):
         d['pu'] = 'obb' if d['units'] == 'user' else rng.choice(['user', 'obb'])
         d['rect'] = rng.choice([None, [Fraction(-1, 4), Fraction(-1, 4), Fraction(3, 2), Fraction(3, 2)],
                                 [Fraction(0), Fraction(0), Fraction(1), Fraction(1)]])
-        d['prim'] = rng.choice(['blur', 'blur1', 'offset', 'flood', 'offset-sub', 'shadow', 'shadow1', 'morph', 'morph1', 'displace'])
+        d['prim'] = rng.choice(['blur', 'blur1', 'offset', 'flood', 'offset-sub', 'shadow', 'shadow1', 'morph', 'morph1', 'displace',
+                                'morphz', 'morphzz'])   # zero / one-zero radii: resolved before the fallbacks since 4d36085
         d['p'] = [rng.choice([Fraction(1, 16), Fraction(1, 8), Fraction(1, 32)]), rng.choice([Fraction(1, 16), Fraction(1, 8)])]
         d['sub'] = [Fraction(1, 8), Fraction(1, 4), Fraction(1, 2), Fraction(1, 2)]
         d['fhref'] = rng.choice([None, None, 'own', 'own-only', 'inherit'])
@@ -352,6 +355,10 @@ def filter_prims(d, B):
         return '<feMorphology operator="dilate" radius="%s %s"/>' % (fs(sx), fs(sy))
     if k == 'morph1':
         return '<feMorphology operator="dilate" radius="%s"/>' % one()
+    if k == 'morphz':       # one radius zero: replaced by 1 AFTER the mapping through the box, in both documents
+        return '<feMorphology operator="dilate" radius="0 %s"/>' % fs(sy)
+    if k == 'morphzz':
+        return '<feMorphology operator="dilate" radius="0 0"/>'
     if k == 'displace':
         sc = sx if (B is None or not pu_obb) else p0 * (B[2] + B[3]) / 2
         return '<feDisplacementMap in="SourceGraphic" in2="SourceGraphic" scale="%s" xChannelSelector="B" yChannelSelector="A"/>' % fs(sc)
@@ -729,7 +736,7 @@ def oq(v):
     return 'None' if v is None else '(Some %s)' % qstr(v)
 
 
-def coq_bad(ctx, name, typ, chk, items, shard=300, jobs=8):
+def coq_bad(ctx, name, typ, chk, items, shard=300, jobs=8, imports=None):
     if not items:
         return []
     chunks = [(k, items[i:i + shard]) for k, i in enumerate(range(0, len(items), shard))]
@@ -738,7 +745,7 @@ def coq_bad(ctx, name, typ, chk, items, shard=300, jobs=8):
         k, its = arg
         body = ("Local Open Scope Q_scope.\nDefinition cases : list (%s) := [\n%s\n].\n"
                 "Eval vm_compute in (bad_indices %s cases).\n" % (typ, ";\n".join(its), chk))
-        rc, out = ctx.coq_eval('%s_%d' % (name, k), body, IMPORTS, timeout=900)
+        rc, out = ctx.coq_eval('%s_%d' % (name, k), body, imports or IMPORTS, timeout=900)
         bl = ctx.parse_N_list(out) if rc == 0 else None
         if bl is None:
             ctx.log("model evaluation %s_%d failed:\n%s" % (name, k, out[-1200:]))
@@ -767,6 +774,135 @@ def nonzero(B):
     return B is not None and B[2] > 0 and B[3] > 0
 
 
+# ------------------------------------------------------------------------------------------------
+# extension round 4: sequences of users over two filters / two masks of one document (conversion caches, primitiveUnits scaling)
+# ------------------------------------------------------------------------------------------------
+CACHE_IDS = {'f1': 1001, 'f2': 1002, 'm1': 1003, 'm2': 1004}
+PVALS = [Fraction(0), Fraction(1, 16), Fraction(1, 8), Fraction(1, 4), Fraction(2), Fraction(3), Fraction(-1, 8)]
+
+
+def cache_idnum(s):
+    if s in CACHE_IDS:
+        return CACHE_IDS[s]
+    m = re.match(r"^(?:mask|filter)(\d+)$", s)
+    return int(m.group(1)) if m else 999999
+
+
+def coq_units(u):
+    return 'ObjectBoundingBox' if u == 'obb' else 'UserSpaceOnUse'
+
+
+def gen_cache_prim(rng):
+    """(markup, Coq fparam, reader of the dumped kind -> Coq rparam)"""
+    k = rng.choice(['blur1', 'blur2', 'blur3', 'offset', 'offset1', 'shadow', 'shadow0', 'morph1', 'morph2', 'morph0', 'displace', 'displace0'])
+    a, b, c = rng.choice(PVALS), rng.choice(PVALS), rng.choice(PVALS)
+    S = lambda v: '(Some %s)' % qstr(v)
+    rd2 = lambda ctor, k1, k2: (lambda kk: '(%s %s %s)' % (ctor, qstr(Fraction(kk[k1])), qstr(Fraction(kk[k2]))))
+    if k == 'blur1':
+        return '<feGaussianBlur stdDeviation="%s"/>' % fs(a), 'FP_blur %s None None' % S(a), rd2('RP_blur', 'sx', 'sy')
+    if k == 'blur2':
+        return '<feGaussianBlur stdDeviation="%s %s"/>' % (fs(a), fs(b)), 'FP_blur %s %s None' % (S(a), S(b)), rd2('RP_blur', 'sx', 'sy')
+    if k == 'blur3':
+        return ('<feGaussianBlur stdDeviation="%s %s %s"/>' % (fs(a), fs(b), fs(c)), 'FP_blur %s %s %s' % (S(a), S(b), S(c)), rd2('RP_blur', 'sx', 'sy'))
+    if k == 'offset':
+        return '<feOffset dx="%s" dy="%s"/>' % (fs(a), fs(b)), 'FP_offset %s %s' % (S(a), S(b)), rd2('RP_offset', 'dx', 'dy')
+    if k == 'offset1':
+        return '<feOffset dy="%s"/>' % fs(b), 'FP_offset None %s' % S(b), rd2('RP_offset', 'dx', 'dy')
+    rd4 = lambda kk: '(RP_shadow %s %s %s %s)' % tuple(qstr(Fraction(kk[x])) for x in ('dx', 'dy', 'sx', 'sy'))
+    if k == 'shadow':
+        return ('<feDropShadow dx="%s" dy="%s" stdDeviation="%s"/>' % (fs(a), fs(b), fs(c)), 'FP_shadow %s %s %s None None' % (S(a), S(b), S(c)), rd4)
+    if k == 'shadow0':        # no stdDeviation: the default text "2 2"; no dx: 2
+        return '<feDropShadow dy="%s"/>' % fs(b), 'FP_shadow None %s (Some 2) (Some 2) None' % S(b), rd4
+    if k == 'morph1':
+        return '<feMorphology operator="dilate" radius="%s"/>' % fs(a), 'FP_morph (Some [%s])' % qstr(a), rd2('RP_morph', 'rx', 'ry')
+    if k == 'morph2':
+        return ('<feMorphology radius="%s %s"/>' % (fs(a), fs(b)), 'FP_morph (Some [%s; %s])' % (qstr(a), qstr(b)), rd2('RP_morph', 'rx', 'ry'))
+    if k == 'morph0':
+        return '<feMorphology operator="dilate"/>', 'FP_morph None', rd2('RP_morph', 'rx', 'ry')
+    rd1 = lambda kk: '(RP_displace %s)' % qstr(Fraction(kk['scale']))
+    if k == 'displace':
+        return ('<feDisplacementMap in="SourceGraphic" in2="SourceGraphic" scale="%s" xChannelSelector="R"/>' % fs(a), 'FP_displace %s' % S(a), rd1)
+    return '<feDisplacementMap in="SourceGraphic" in2="SourceGraphic"/>', 'FP_displace None', rd1
+
+
+def gen_cache_case(rng):
+    UN = {'obb': 'objectBoundingBox', 'user': 'userSpaceOnUse'}
+    defs, filters, masks = '', [], []
+    for k, fid in enumerate(('f1', 'f2')):
+        units = 'user' if (k == 0 and rng.below(4)) else rng.choice(['obb', 'user'])
+        pu = 'user' if (k == 0 and rng.below(4)) else rng.choice(['obb', 'user'])
+        rect = [Fraction(0), Fraction(0), Fraction(200), Fraction(160)] if units == 'user' else \
+            rng.choice([[Fraction(-1, 4), Fraction(-1, 4), Fraction(3, 2), Fraction(3, 2)], [Fraction(0), Fraction(0), Fraction(1), Fraction(1)]])
+        mk, fpar, rd = gen_cache_prim(rng)
+        defs += '<filter id="%s" filterUnits="%s" primitiveUnits="%s" x="%s" y="%s" width="%s" height="%s">%s</filter>' % (
+            (fid, UN[units], UN[pu]) + tuple(fs(v) for v in rect) + (mk,))
+        term = ('{| fe_id := %d; fe_units := %s; fe_punits := %s; fe_rect := %s; fe_prims := [ {| fp_kind := PK_Other; fp_x := None; fp_y := None; '
+                'fp_w := None; fp_h := None; fp_par := %s |} ] |}' % (CACHE_IDS[fid], coq_units(units), coq_units(pu), frect(rect), fpar))
+        filters.append(dict(id=fid, term=term, rd=rd))
+    link = rng.below(2) == 0
+    for k, mid in enumerate(('m1', 'm2')):
+        units = 'user' if (k == 0 and rng.below(4)) else rng.choice(['obb', 'user'])
+        cu = 'user' if (k == 0 and rng.below(4)) else rng.choice(['obb', 'user'])
+        rect = [Fraction(0), Fraction(0), Fraction(200), Fraction(160)] if units == 'user' else \
+            rng.choice([[Fraction(1, 4), Fraction(1, 8), Fraction(1, 2), Fraction(3, 4)], [Fraction(0), Fraction(0), Fraction(1), Fraction(1)]])
+        content = '<rect x="0" y="0" width="0.75" height="1" fill="white"/>' if cu == 'obb' else '<rect x="0" y="0" width="150" height="160" fill="white"/>'
+        defs += '<mask id="%s" maskUnits="%s" maskContentUnits="%s" x="%s" y="%s" width="%s" height="%s"%s>%s</mask>' % (
+            (mid, UN[units], UN[cu]) + tuple(fs(v) for v in rect) + (' mask="url(#m2)"' if (k == 0 and link) else '', content))
+        masks.append('{| me_id := %d; me_units := %s; me_cunits := %s; me_rect := %s; me_content := true |}'
+                     % (CACHE_IDS[mid], coq_units(units), coq_units(cu), frect(rect)))
+    chains = {'m1': '[%s]' % (';'.join(masks) if link else masks[0]), 'm2': '[%s]' % masks[1]}
+    users, body = [], ''
+    for j in range(2 + rng.below(4)):
+        x, y = dy(rng, 0, 100, 2), dy(rng, 0, 80, 2)
+        w, h = Fraction(8 + 4 * rng.below(12)), Fraction(8 + 4 * rng.below(10))
+        line = rng.below(7) == 0
+        what = rng.choice(['f1', 'f2', 'm1', 'm2', 'f1', 'm1'])
+        attr = 'filter' if what[0] == 'f' else 'mask'
+        if line:
+            shape = '<path d="M %s %s h %s" stroke="black" stroke-width="4"/>' % (fs(x), fs(y), fs(w))
+            box = None
+        else:
+            shape = '<rect x="%s" y="%s" width="%s" height="%s" fill="green"/>' % (fs(x), fs(y), fs(w), fs(h))
+            box = [x, y, w, h]
+        body += '<g id="u%d" %s="url(#%s)">%s</g>' % (j, attr, what, shape)
+        users.append(dict(id='u%d' % j, what=what, box=box))
+    doc = '<svg %s width="%d" height="%d"><defs>%s</defs>%s</svg>' % (NS, W, H, defs, body)
+    return dict(doc=doc, filters=filters, chains=chains, users=users)
+
+
+def cache_items(c, tree):
+    """Coq items (filter users, mask users) of one generated cache case from its dump"""
+    nodes = find_nodes(tree)
+    fus, mus = [], []
+    for u in c['users']:
+        ent = nodes.get(u['id'])
+        g = ent[0] if ent and ent[0]['t'] == 'g' else None
+        bt = '(Some %s)' % frect(u['box']) if u['box'] else 'None'
+        if u['what'][0] == 'f':
+            f = [x for x in c['filters'] if x['id'] == u['what']][0]
+            o = g['filters'][0] if g and g.get('filters') else None
+            if o is None:
+                obs = 'None'
+            else:
+                obs = '(Some (%d%%N, %s, %s))' % (cache_idnum(o['id']), frect([Fraction(v) for v in o['rect']]), f['rd'](o['primitives'][0]['kind']))
+            fus.append('(%s, %s, %s)' % (f['term'], bt, obs))
+        else:
+            o = g.get('mask') if g else None
+            if o is None:
+                obs = 'None'
+            else:
+                l = []
+                while o:
+                    ch = o['root']['children']
+                    l.append('(%d%%N, %s, %s, %s)' % (cache_idnum(o['id']), frect([Fraction(v) for v in o['rect']]),
+                                                     'true' if (ch and ch[0]['t'] == 'g') else 'false', 'true' if ch else 'false'))
+                    o = o.get('mask')
+                obs = '(Some [%s])' % ';'.join(l)
+            mus.append('(%s, %s, %s)' % (c['chains'][u['what']], bt, obs))
+    taken = '[1001%N; 1002%N; 1003%N; 1004%N]'
+    return ('(%s, [%s])' % (taken, ';'.join(fus)) if fus else None, '(%s, [%s])' % (taken, ';'.join(mus)) if mus else None)
+
+
 def run(ctx):
     rng = ctx.rng
     quick = ctx.tier == 'quick'
@@ -777,6 +913,9 @@ def run(ctx):
         "Arc reference counts are modelled as the number of holders in the user list (Model/Obb.v); the cache of converted clip paths as an "
         "association list",
         "tools/props/c18.py: document generators, the hand mapping of definitions through a box, dump readers, tolerances",
+        "Model/ObbPrims.v positive_new / Qapprox_zero / Qsign_positive (strict-num PositiveF32::new, usvg approx_zero_ulps, is_sign_positive over "
+        "exact rationals; -0.0 and f32 overflow not distinguished); caches of converted filters / masks as association lists (Model/ObbFilter.v), "
+        "validated by the filter-users / mask-users correspondence",
     ]
     ctx.assumptions = [
         "exact rational arithmetic; implementation compared within 1e-4 relative tolerance",
@@ -786,7 +925,7 @@ def run(ctx):
         "feFlood/feImage sub-regions are compared only when all four of x, y, width, height are given",
     ]
     broken = ctx.translate()
-    res = ctx.coq_props(extra_targets=['Model/ObbChk.v'])
+    res = ctx.coq_props(extra_targets=['Model/ObbChk.v', 'Model/ObbFilterChk.v'])
     proof_ok = res['ok'] and not broken
     binp, blog = ctx.harness('release')
     if binp is None:
@@ -930,6 +1069,37 @@ def run(ctx):
     if live:
         ctx.add_sample(dict(op='s-obb', docA=live[0]['docA'][:400]))
 
+    # must-pass regression input (former witness of C18_primitive_params_morph_zero_witness, repaired by 4d36085): the objectBoundingBox
+    # document and the same filter with primitiveUnits=userSpaceOnUse and the radius mapped through the 50x20 box give the same tree
+    try:
+        wa = open(os.path.join(os.path.dirname(os.path.dirname(os.path.dirname(os.path.abspath(__file__)))), 'corpus', 'witness',
+                               'C18-morphology-zero-radius-obb.svg')).read().strip().replace('\n', ' ')
+    except OSError:
+        wa = None
+    if wa is None or 'primitiveUnits="objectBoundingBox"' not in wa or 'radius="0 3"' not in wa:
+        ctx.violation("regression input corpus/witness/C18-morphology-zero-radius-obb.svg is missing or was changed", dict(kind='s-witness'), found_input=False)
+    else:
+        wb = wa.replace('primitiveUnits="objectBoundingBox"', 'primitiveUnits="userSpaceOnUse"').replace('radius="0 3"', 'radius="0 60"')
+        wo = [jload(o) for o in ctx.rvh_batch(binp, 'dump', ["-\t" + wa, "-\t" + wb])]
+
+        def wnum(t):
+            fl = []
+
+            def rec(n):
+                for f in n.get('filters') or []:
+                    fl.append(def_numbers('filter', f))
+                for c in n.get('children') or []:
+                    rec(c)
+            if 'root' in t:
+                rec(t['root'])
+            return fl
+        na_, nb_ = wnum(wo[0]), wnum(wo[1])
+        ctx.note_case('s/witness-morph-zero', nontrivial=bool(na_))
+        if not na_ or len(na_) != len(nb_) or any(not lists_close(x, y) for x, y in zip(na_, nb_)):
+            ctx.violation("feMorphology zero radius under primitiveUnits=objectBoundingBox differs from the mapped user-space primitive "
+                          "(regression of 4d36085): %s vs %s" % (str(na_)[:200], str(nb_)[:200]), dict(kind='s-obb', docA=wa, docB=wb))
+        ctx.cov['oracle']['witness_morph_zero'] = dict(obb=str(na_)[:120], mapped=str(nb_)[:120])
+
     # ---------------------------------------------------------------- K: dumped definitions vs the model (inside Coq)
     g_items, gt_items, p_items, cu_items, ce_items, r_items, fb_items, pr_items = [], [], [], [], [], [], [], []
     g_idx, gt_idx, p_idx, cu_idx, ce_idx, r_idx, fb_idx, pr_idx = [], [], [], [], [], [], [], []
@@ -1045,6 +1215,36 @@ def run(ctx):
             c = live[idx[b]]
             ctx.violation("model and implementation disagree on objectBoundingBox resolution (%s)" % name,
                           dict(kind='k-' + name, docA=c['docA'], coq_item=items[b], case=str(c['d'])[:600]))
+    # extension round 4: sequences of users over cacheable / non-cacheable filters and mask chains of one document
+    ccases = [gen_cache_case(rng) for _ in range(120 if quick else 1200)]
+    couts = ctx.rvh_batch(binp, 'dump', ["-\t" + c['doc'] for c in ccases])
+    fu_items, fu_idx, mu_items, mu_idx = [], [], [], []
+    for ci, (c, o) in enumerate(zip(ccases, couts)):
+        t = jload(o)
+        if 'root' not in t:
+            ctx.violation("cache-users document failed in the parser: %s" % str(t)[:200], dict(kind='k-cache-users', docA=c['doc']))
+            continue
+        ctx.note_case('cache/' + c['doc'], nontrivial=True)
+        fi, mi = cache_items(c, t)
+        if fi:
+            fu_items.append(fi)
+            fu_idx.append(ci)
+        if mi:
+            mu_items.append(mi)
+            mu_idx.append(ci)
+    for name, typ, chk, items, idx in (
+            ('filter-users', 'list N * list (felem * option qrect * option (N * qrect * rparam))', 'chk_filter_users', fu_items, fu_idx),
+            ('mask-users', 'list N * list (msrc * option qrect * option (list (N * qrect * bool * bool)))', 'chk_mask_users', mu_items, mu_idx)):
+        bad = coq_bad(ctx, 'k_' + name.replace('-', '_'), typ, chk, items, shard=60, imports=IMPORTS_EXT)
+        ctx.cov.setdefault('correspondence', {})[name] = len(items)
+        if bad is None:
+            model_ok = False
+            ctx.violation("C18 model (%s) no longer evaluates: correspondence cannot run" % name, dict(kind='k-' + name), found_input=False)
+            continue
+        for b in bad[:3]:
+            c = ccases[idx[b]]
+            ctx.violation("model and implementation disagree on the users of shared filters / masks (%s: ids through the conversion cache, "
+                          "regions, primitiveUnits scaling)" % name, dict(kind='k-' + name, docA=c['doc'], coq_item=items[b]))
     # the per-user expectation for clip chains (what the property demands): F18 shows up here
     bad = coq_bad(ctx, 'k_clip_expected', 'csrc * list (option qrect * option (list (N * ts)))', 'chk_clip_expected', ce_items)
     if bad is None:
@@ -1078,6 +1278,17 @@ def run(ctx):
             bad = coq_bad(ctx, 'm_bbox', 'qrect * qrect', 'thm_bbox_map', items)
             for b in (bad or [])[:1]:
                 ctx.violation("model counterexample to C18_bbox_transform_is_map", dict(kind='m-bbox', coq_item=items[b]))
+                found = True
+        if not found and model_ok:
+            # C18_primitive_params_equiv over the regenerated filter slices
+            items = []
+            for _ in range(300):
+                par = gen_cache_prim(rng)[1]
+                items.append('(%s, %s)' % (par, frect([dy(rng, 0, 100, 2), dy(rng, 0, 100, 2), dy(rng, 1, 60, 2), dy(rng, 1, 60, 2)])))
+            bad = coq_bad(ctx, 'm_params', 'fparam * qrect', 'thm_params', items, imports=IMPORTS_EXT)
+            for b in (bad or [])[:1]:
+                ctx.violation("model counterexample to C18_primitive_params_equiv (source-derived filter slices): parameters under "
+                              "primitiveUnits=objectBoundingBox differ from the primitive mapped through the box", dict(kind='m-params', coq_item=items[b]))
                 found = True
         if not found:
             ctx.violation("C18 proof obligations no longer check: %s %s" % (res['failed'] + res['audit'], [b['name'] for b in broken]),
